@@ -20,3 +20,10 @@ package transaction
 //@   trusted
 //@   pure
 //@   ensures str(id) == tx_idstr(tx)
+
+//@ property C10
+//@ func (h Handler) Execute(ctx, wcs, estimate) (rct, err)
+//@   iface
+//@   trusted
+//@   modifies *
+//@   ensures err == nil ==> rct != nil
